@@ -5,13 +5,13 @@ go 1.24.0
 require (
 	github.com/anishathalye/porcupine v1.3.0
 	github.com/arr-ai/arrai v0.0.0
+	github.com/arr-ai/hash v1.1.0
 	github.com/arr-ai/wbnf v0.38.0
 	github.com/spf13/afero v1.11.0
 )
 
 require (
 	github.com/arr-ai/frozen v1.11.0 // indirect
-	github.com/arr-ai/hash v1.1.0 // indirect
 	github.com/cpuguy83/go-md2man/v2 v2.0.4 // indirect
 	github.com/davecgh/go-spew v1.1.1 // indirect
 	github.com/go-errors/errors v1.5.1 // indirect
